@@ -8,7 +8,7 @@ CONSTANTS
   SizeSplits = TRUE
   DictCols = {1}
   Fallback = TRUE
-  MaxOps = 4
+  MaxOps = 3
   MaxBatch = 3
 INVARIANTS P1_RowsConserved P2_GroupSizes P2_Buffered P2_Documented P3_Chunks P3_OpenPages P4_Dictionary P5_Closed
 PROPERTY P5_NoStepAfterClose
